@@ -112,3 +112,125 @@ Theorem C06_options_irrelevant : forall V (sem : N -> V -> V -> V -> V -> V) (ze
     mread zero (so_loc so1) (mexec sem zero (so_loc so1) (so_ops so1) m1) p
     = mread zero (so_loc so2) (mexec sem zero (so_loc so2) (so_ops so2) m2) p.
 Proof. intros V sem zero. exact (KV.Proofs.ReuseStrip.options_irrelevant sem zero). Qed.
+(* ------------------------------------------------------------------------------------------------ *)
+(** * Timing simulation: fork stripping with zero delay on fork inputs, delay-dataset selection *)
+From Coq Require Import ZArith.
+From KV Require Import Model.Time Model.WaveEval Model.WaveSpec Model.WaveOps Model.WaveAcc Model.WaveStripModel Model.NetlistSemGen.
+From KV Require Proofs.WaveCore Proofs.WaveCircuit Proofs.WaveStrip.
+Local Open Scope list_scope.
+
+(** a zero-delay BUF1 evaluation (what an un-stripped fork is) over a well-formed, STRICTLY INCREASING waveform that has fewer
+    transitions than the output region has entries stores that very waveform (terminator included), drops nothing and
+    returns its transition counts *)
+Theorem C06_buf_zero_delay_identity : forall w z1 z2 z3 d1 d2 d3 zreg r,
+  WaveStrip.const0 z1 -> WaveStrip.const0 z2 -> WaveStrip.const0 z3 ->
+  WaveCore.wf_args [w; z1; z2; z3] [dzero; d1; d2; d3] zreg ->
+  strictly_increasing w -> ntrans w < List.length zreg ->
+  wave_eval (lutv "BUF1") [w; z1; z2; z3] [dzero; d1; d2; d3] zreg = Some r ->
+  upto_end (r_z r) = upto_end w /\ r_ovf r = 0 /\ (r_rise r, r_fall r) = edges w.
+Proof. exact WaveStrip.buf1_zero_delay_identity. Qed.
+
+(** ... with a region that is too small: the first cap-2 transitions, the last one iff the final value needs it, TMAX_OVL *)
+Theorem C06_buf_zero_delay_overflow : forall w z1 z2 z3 d1 d2 d3 zreg r,
+  WaveStrip.const0 z1 -> WaveStrip.const0 z2 -> WaveStrip.const0 z3 ->
+  WaveCore.wf_args [w; z1; z2; z3] [dzero; d1; d2; d3] zreg ->
+  strictly_increasing w -> List.length zreg <= ntrans w ->
+  wave_eval (lutv "BUF1") [w; z1; z2; z3] [dzero; d1; d2; d3] zreg = Some r ->
+  exists j, r_ovf r = S j /\
+    ((ntrans w = List.length zreg + 2 * j /\ upto_end (r_z r) = firstn (List.length zreg - 2) w ++ [MaxOvl]) \/
+     (ntrans w = List.length zreg + 2 * j + 1 /\
+      upto_end (r_z r) = firstn (List.length zreg - 2) w ++ [wget w (ntrans w - 1); MaxOvl])).
+Proof. exact WaveStrip.buf1_zero_delay_overflow. Qed.
+
+(** ... and on a waveform that is NOT strictly increasing it is not the identity (known finding D26) *)
+Theorem C06_buf_zero_delay_nonmonotone_refuted :
+  exists w zreg r, wf_wave w /\ ntrans w < List.length zreg /\
+    wave_eval (lutv "BUF1") [w; wzero; wzero; wzero] [dzero; dzero; dzero; dzero] zreg = Some r /\
+    upto_end (r_z r) <> upto_end w /\ r_ovf r = 0 /\
+    upto_end w = [Fin 42; Fin 8; Fin 46; MaxInf] /\ upto_end (r_z r) = [Fin 46; MaxInf].
+Proof. exact WaveStrip.buf_zero_delay_nonmonotone_refuted. Qed.
+
+(** the alias execution with the identity alias is the line-level semantics [wexec] of C03/C04/C13 *)
+Theorem C06_wexec_alias_id : forall delays cap ops e, wexec_alias delays cap (fun x => x) ops e = wexec delays cap ops e.
+Proof. exact WaveStrip.wexec_alias_id. Qed.
+
+(** strip_forks clause, timing simulation: every well-formed acyclic netlist, zero delay on fork inputs, strictly increasing
+    stem waveforms (in the unstripped run) that fit into the branch regions => the stripped schedule's waveform at the stem of
+    every line = the unstripped schedule's waveform at that line *)
+Theorem C06_wave_strip_forks_irrelevant : forall delays cap c stim len stems,
+  WaveCircuit.good_delays delays -> WaveCircuit.good_caps cap -> (forall p, wf_wave (stim p)) -> (forall p, upto_end (stim p) = stim p) ->
+  delays (List.length (c_lines c)) = dzero ->
+  wf_netlist c -> comb_acyclic c -> List.length (c_lines c) <= len -> build_stems c true len = Some stems ->
+  (forall n, n < List.length (c_nodes c) -> iface_pos c n = None -> is_fork (get_node c n) = true ->
+     n_kind (get_node c n) = "__fork__"%string) ->
+  (forall n, n < List.length (c_nodes c) -> iface_pos c n = None -> is_fork (get_node c n) = false ->
+     select_lut kind_prefixes (n_kind (get_node c n)) (negb (is_some (pin (n_ins (get_node c n)) 2)))
+                (negb (is_some (pin (n_ins (get_node c n)) 3))) <> None) ->
+  (forall n, n < List.length (c_nodes c) -> is_dff (get_node c n) = true -> forall k o, 2 <= k -> pin (n_outs (get_node c n)) k = Some o -> False) ->
+  (forall n, n < List.length (c_nodes c) -> iface_pos c n = None -> is_fork (get_node c n) = false ->
+     forall k o, 1 <= k -> pin (n_outs (get_node c n)) k = Some o -> False) ->
+  (forall n, n < List.length (c_nodes c) -> iface_pos c n = None -> is_fork (get_node c n) = true ->
+     forall k, 1 <= k <= 3 -> pin (n_ins (get_node c n)) k = None) ->
+  let e0 := init_env wzero c stim in
+  let eu := wexec delays cap (build_ops c false) e0 in
+  (forall n l0, n < List.length (c_nodes c) -> iface_pos c n = None -> is_fork (get_node c n) = true ->
+     pin (n_ins (get_node c n)) 0 = Some l0 ->
+     delays l0 = dzero /\ strictly_increasing (eu l0) /\
+     forall k o, pin (n_outs (get_node c n)) k = Some o -> ntrans (eu l0) < cap o) ->
+  forall l, l < List.length (c_lines c) ->
+    wexec_alias delays cap (stemmed stems) (build_ops c true) e0 (stemmed stems l) = eu l.
+Proof. exact WaveStrip.wave_strip_forks_irrelevant. Qed.
+
+(** ... with polarity-free delays the condition on the stems follows from conditions on the inputs and the capacities *)
+Theorem C06_wave_strip_forks_polfree : forall delays cap c stim len stems,
+  WaveCircuit.good_delays delays -> WaveCircuit.good_caps cap -> (forall k, dtab_polfree (delays k)) ->
+  (forall p, wf_wave (stim p)) -> (forall p, upto_end (stim p) = stim p) -> (forall p, strictly_increasing (stim p)) ->
+  delays (List.length (c_lines c)) = dzero ->
+  wf_netlist c -> comb_acyclic c -> List.length (c_lines c) <= len -> build_stems c true len = Some stems ->
+  (forall n, n < List.length (c_nodes c) -> iface_pos c n = None -> is_fork (get_node c n) = true ->
+     n_kind (get_node c n) = "__fork__"%string) ->
+  (forall n, n < List.length (c_nodes c) -> iface_pos c n = None -> is_fork (get_node c n) = false ->
+     select_lut kind_prefixes (n_kind (get_node c n)) (negb (is_some (pin (n_ins (get_node c n)) 2)))
+                (negb (is_some (pin (n_ins (get_node c n)) 3))) <> None) ->
+  (forall n, n < List.length (c_nodes c) -> is_dff (get_node c n) = true -> forall k o, 2 <= k -> pin (n_outs (get_node c n)) k = Some o -> False) ->
+  (forall n, n < List.length (c_nodes c) -> iface_pos c n = None -> is_fork (get_node c n) = false ->
+     forall k o, 1 <= k -> pin (n_outs (get_node c n)) k = Some o -> False) ->
+  (forall n, n < List.length (c_nodes c) -> iface_pos c n = None -> is_fork (get_node c n) = true ->
+     forall k, 1 <= k <= 3 -> pin (n_ins (get_node c n)) k = None) ->
+  (forall n l0, n < List.length (c_nodes c) -> iface_pos c n = None -> is_fork (get_node c n) = true ->
+     pin (n_ins (get_node c n)) 0 = Some l0 -> delays l0 = dzero) ->
+  (forall n l0 k o, n < List.length (c_nodes c) -> iface_pos c n = None -> is_fork (get_node c n) = true ->
+     pin (n_ins (get_node c n)) 0 = Some l0 -> pin (n_outs (get_node c n)) k = Some o -> cap l0 <= cap o) ->
+  forall l, l < List.length (c_lines c) ->
+    wexec_alias delays cap (stemmed stems) (build_ops c true) (init_env wzero c stim) (stemmed stems l)
+    = wexec delays cap (build_ops c false) (init_env wzero c stim) l.
+Proof. exact WaveStrip.wave_strip_forks_polfree. Qed.
+
+(** ... and without the monotonicity hypothesis it is false (known finding D26) *)
+Theorem C06_wave_strip_nonmonotone_refuted :
+  exists delays cap c stim len stems l,
+    WaveCircuit.good_delays delays /\ WaveCircuit.good_caps cap /\ (forall p, wf_wave (stim p)) /\ (forall p, upto_end (stim p) = stim p) /\
+    delays (List.length (c_lines c)) = dzero /\
+    wf_netlist c /\ comb_acyclic c /\ List.length (c_lines c) <= len /\ build_stems c true len = Some stems /\
+    (forall n l0, n < List.length (c_nodes c) -> iface_pos c n = None -> is_fork (get_node c n) = true ->
+       pin (n_ins (get_node c n)) 0 = Some l0 ->
+       delays l0 = dzero /\
+       forall k o, pin (n_outs (get_node c n)) k = Some o ->
+         ntrans (wexec delays cap (build_ops c false) (init_env wzero c stim) l0) < cap o) /\
+    l < List.length (c_lines c) /\
+    wexec_alias delays cap (stemmed stems) (build_ops c true) (init_env wzero c stim) (stemmed stems l)
+    <> wexec delays cap (build_ops c false) (init_env wzero c stim) l.
+Proof. exact WaveStrip.wave_strip_nonmonotone_refuted. Qed.
+
+(** dataset clause: a lane that selects its delay dataset globally (mode 0: the seed of c_prop) or per simulation (mode 1:
+    simctl_int[0]) -- anew at every op evaluation, as _wave_eval does -- runs exactly as with that dataset alone *)
+Theorem C06_dataset_selection : forall pick2 D cap mode seed ctl0 d ops,
+  (1 < List.length D -> (mode = 0 /\ d = seed) \/ (mode = 1 /\ d = ctl0)) -> (List.length D <= 1 -> d = 0) ->
+  forall e, wexec_sel pick2 D cap mode seed ctl0 ops e = wexec (dl_of (nth d D [])) cap ops e.
+Proof. exact WaveStrip.dataset_selection. Qed.
+
+Theorem C06_dataset_selection_lanes : forall pick2 D cap seed ctl ops es,
+  1 < List.length D -> Forall (fun cm : nat * nat => snd cm <= 1) ctl ->
+  wexec_lanes pick2 D cap seed ctl ops es
+  = map (fun ce : (nat * nat) * wenv => wexec (dl_of (nth (WaveStrip.chosen seed (fst ce)) D [])) cap ops (snd ce)) (combine ctl es).
+Proof. exact WaveStrip.dataset_selection_lanes. Qed.
